@@ -228,11 +228,12 @@ package component_definition
 //@ ensures [always-singleton] result == true
 
 //@ func (*Meta).GetProperties
-//@ trusted
+//@ terminates
+//@ requires [meta] m != nil
 //@ assigns nothing
 //@ ensures [group] result == PropsOf(m, t)
 
-//@ spec func PropsOf(m *Meta, t PropertyType) []*Property
+//@ spec func PropsOf(m *Meta, t PropertyType) []*Property = m.propertyGroup[t]
 
 //@ func (*Meta).GetComponentProperties
 //@ terminates
@@ -242,9 +243,11 @@ package component_definition
 
 // GetAllProperties concatenates the property groups of a Meta into a fresh slice (the groups are built at scan time).
 //@ func (*Meta).GetAllProperties
-//@ trusted
+//@ terminates
+//@ requires [meta] m != nil
 //@ assigns nothing
 //@ ensures [fresh-list] backing(result) == 0 || fresh(result)
+//@ loop 1 invariant [collecting] backing(props) == 0 || backing(props) > old(top())
 
 // PropOK(p): what the narrowing stage leaves behind for a component property and what Inject needs: a well-formed
 // point over a settable field whose remaining candidates are built Metas (C08 [injects-nil-free], C11 field scan).
